@@ -568,6 +568,38 @@ func (g *cgen) top() (c *search.Constraint, shape string) {
 			}
 			return &search.Constraint{Permanode: pc}, "permanode-relation"
 		}
+		if refClaims := g.refClaims(); len(refClaims) > 0 && g.p(35, "visTargeted") {
+			// valueInSet over an attribute that really holds refs, with a sub-query about
+			// the referenced blob itself or about some other blob
+			cl := pick(g, refClaims, "visClaim")
+			target := cl.Value
+			if g.p(50, "visOther") {
+				target = pick(g, g.refs, "visOtherRef")
+			}
+			var sub *search.Constraint
+			switch g.n(0, 3, "visSub") {
+			case 0:
+				sub = &search.Constraint{BlobRefPrefix: target}
+			case 1:
+				if tb := g.w.Blobs[target]; tb != nil && tb.Type != "" {
+					sub = &search.Constraint{CamliType: schema.CamliType(tb.Type)}
+				} else {
+					sub = &search.Constraint{AnyCamliType: true}
+				}
+			case 2:
+				sub = logical("and", &search.Constraint{BlobRefPrefix: target[:len("sha224-")+g.n(1, 3, "visPfx")]}, g.sub(flAny))
+			default:
+				sub = g.sub(pick(g, []int{flPerm, flFile, flAny}, "visFl"))
+			}
+			pc := &search.PermanodeConstraint{Attr: cl.Attr, ValueInSet: sub}
+			if g.p(25, "visAll") {
+				pc.ValueAll = true
+			}
+			if g.p(20, "visAt") {
+				pc.At = g.instant("visAtT")
+			}
+			return &search.Constraint{Permanode: pc}, "permanode-valueInSet"
+		}
 		return &search.Constraint{Permanode: g.permC(depth)}, "permanode"
 	case 7: // single-blob planner path
 		one := &search.Constraint{BlobRefPrefix: pick(g, g.refs, "oneRef")}
@@ -662,6 +694,19 @@ func (g *cgen) edgeClaims() []*vw.Claim {
 				if _, ok := blob.Parse(c.Value); ok {
 					out = append(out, c)
 				}
+			}
+		}
+	}
+	return out
+}
+
+// refClaims lists the claims whose value is the ref of a blob of the world.
+func (g *cgen) refClaims() []*vw.Claim {
+	var out []*vw.Claim
+	for _, p := range g.w.Perms {
+		for _, c := range p.Claims {
+			if c.Kind != "del-attribute" && g.w.Blobs[c.Value] != nil {
+				out = append(out, c)
 			}
 		}
 	}
